@@ -184,13 +184,14 @@ func c08Case(rt *rapid.T, rec *vt.Rec) {
 	// model: eligible and acknowledging hosts at request time
 	eligible := map[string]*c08Host{}
 	acks := map[string]*c08Host{}
-	active := 0
+	active, activeAll := 0, 0
 	for _, h := range hosts {
 		id := s.agents[h.Idx].id.nodeID
 		if !(kind == "" || h.Kind == kind) || h.age >= 120*time.Second {
 			continue
 		}
 		active++
+		activeAll++
 		if h.Idx == reqIdx || h.Tracked {
 			continue
 		}
@@ -279,6 +280,23 @@ func c08Case(rt *rapid.T, rec *vt.Rec) {
 	}
 	if nEff <= 0 && err != nil && !legacy {
 		fail("a request for no hosts returned an error: %v", err)
+	}
+	// when the request is large enough for the pool to try EVERY eligible host, the reply is exactly the hosts that
+	// acknowledged - on both endpoints - and it is not an error as long as one did
+	skipCount := 1
+	if !legacy || true {
+		if peers, perr := s.model.st.NodePeers(store.NodeID(requester.nodeID)); perr == nil {
+			skipCount += len(peers)
+		}
+	}
+	if nEff > 0 && nEff+skipCount >= activeAll && nEff >= len(eligible) && len(acks) > 0 {
+		var gotIDs []string
+		for _, n := range got {
+			gotIDs = append(gotIDs, string(n.ID))
+		}
+		if !setEq(gotIDs, sortedKeys(acks)) || err != nil {
+			fail("all %d eligible hosts were tried (requested %d): the reply must be exactly the %d hosts that acknowledged (%v) without an error; got %v err=%v", len(eligible), nEff, len(acks), names(sortedKeys(acks)), gotNames, err)
+		}
 	}
 	if nEff > 0 && active > 0 && len(acks) == active {
 		want := nEff
